@@ -93,6 +93,36 @@ func (g *sgen) wrap(w string, r rs.Ref) rs.Con {
 	panic("wrap " + w)
 }
 
+// taggedTopcon builds a tagged-value schema with one malformed element in its
+// constraint list.  Without a user-data type name the FIRST slot is the type
+// slot for anything that evaluates to a string ("int" there is a well-formed
+// schema, "nosuch" there is the tagged-sub site), so the malformed element is
+// then kept behind at least one real constraint; with a user-data type name it
+// may stand anywhere after it.
+func (g *sgen) taggedTopcon(bad string) rs.Schema {
+	t := g.t
+	s := rs.Schema{Type: "tagged-value", Lit: rapid.Bool().Draw(t, "lit")}
+	n := rapid.IntRange(0, 2).Draw(t, "ncons")
+	if rapid.Bool().Draw(t, "withsub") {
+		s.Sub = rapid.SampledFrom(baseTypes).Draw(t, "sub")
+		s.Typedef = rapid.IntRange(0, 2).Draw(t, "typedef") == 0
+	} else if n == 0 {
+		n = 1
+	}
+	for i := 0; i < n; i++ {
+		s.Cons = append(s.Cons, g.con("any", 0))
+	}
+	from := 0
+	if s.Sub == "" {
+		from = 1
+	}
+	at := rapid.IntRange(from, len(s.Cons)).Draw(t, "at")
+	cons := append([]rs.Con{}, s.Cons[:at]...)
+	cons = append(cons, rs.Con{Op: "bad", Bad: bad})
+	s.Cons = append(cons, s.Cons[at:]...)
+	return s
+}
+
 func genMalformed() *rapid.Generator[MCase] {
 	return rapid.Custom(func(t *rapid.T) MCase {
 		g := &sgen{t: t}
@@ -100,6 +130,7 @@ func genMalformed() *rapid.Generator[MCase] {
 		mc := MCase{Site: site, Mode: rapid.SampledFrom([]string{"make", "deftype"}).Draw(t, "mode")}
 		var curCon *rs.Con
 		var curSchema *rs.Schema
+		taggedTop := false
 		pool := badAnywhere
 		switch site {
 		case "topcon":
@@ -127,6 +158,17 @@ func genMalformed() *rapid.Generator[MCase] {
 			}
 			curSchema = &s
 		case "topcon":
+			if rapid.IntRange(0, 3).Draw(t, "taggedtop") == 0 {
+				// the constraint list of a TAGGED-VALUE schema, the one list in
+				// which a string may legitimately stand (the user-data type name,
+				// first slot only): nested() never yields tagged-value, so without
+				// this the list after "tagged-value [type]" was never malformed
+				// (anchor audit, mutant audit-c14-tagged-string-anywhere)
+				s := g.taggedTopcon(mc.Bad)
+				curSchema = &s
+				taggedTop = true
+				break
+			}
 			s := g.nested("any", 0)
 			s.Cons = insertCon(t, s.Cons, rs.Con{Op: "bad", Bad: mc.Bad})
 			curSchema = &s
@@ -139,6 +181,9 @@ func genMalformed() *rapid.Generator[MCase] {
 			curCon = &c
 		}
 		mc.Path = []string{site}
+		if taggedTop {
+			mc.Path = []string{"topcon/tagged"}
+		}
 		for layers := rapid.IntRange(0, 3).Draw(t, "layers"); layers > 0; layers-- {
 			if curSchema != nil {
 				w := rapid.SampledFrom([]string{"validator", "validator", "of", "has-key", "may-have-key", "when-guard", "when-check", "not", "not"}).Draw(t, "wrap")
@@ -182,7 +227,7 @@ func genMalformed() *rapid.Generator[MCase] {
 			mc.Inputs = append(mc.Inputs, g.input(&good))
 		}
 		mc.Inputs = append(mc.Inputs, g.value(2, ""))
-		if site == "tagged-sub" {
+		if site == "tagged-sub" || (len(mc.Path) > 0 && mc.Path[len(mc.Path)-1] == "topcon/tagged") {
 			// the values a tagged-value validator actually looks into
 			mc.Inputs = append(mc.Inputs, rs.Tagged("tv", g.scalar()), rs.Map(rs.Entry{Key: "a", V: rs.Tagged("tv", rs.Str("abc"))}, rs.Entry{Key: "b", V: rs.Int(1)}))
 		}
@@ -204,6 +249,9 @@ func checkMalformed(mc MCase, ctx *vcommon.Ctx) *vcommon.Failure {
 	build := buildText(&mc.Schema, mc.Mode)
 	show := strings.TrimPrefix(build, typedefs)
 	ctx.Class("site/" + mc.Site)
+	if mc.Path[len(mc.Path)-1] == "topcon/tagged" {
+		ctx.Class("site/topcon-in-tagged-value-schema")
+	}
 	ctx.Class("mode/" + mc.Mode)
 	if len(mc.Path) >= 2 {
 		ctx.Class("nested-in/" + mc.Path[len(mc.Path)-2])
